@@ -31,6 +31,8 @@ def run(ctx):
             raise vlib.Broken("generated case inconsistent with its description: %s" % json.dumps(d)[:500])
         ev = d.get("ev", {})
         key = "%s:%s:%s:vb4=%s:d4=%s:a4=%s:e=%s,%s" % (ev.get("ev"), ev.get("kind"), d.get("what"), ev.get("vb4"), ev.get("d4"), ev.get("a4"), ev.get("e1"), ev.get("e2"))
+        if ev.get("ev") == "fit10":
+            key = "fit10:%s:%s:n4=%s:a4=%s" % (ev.get("kind"), d.get("what"), ev.get("n4"), ev.get("a4"))
         if ev.get("ev") == "rand":
             key = "rand:%s:%s:%s" % (ev.get("kind"), d.get("what"), ev.get("d"))
         ctx.violation(key, "viewBox placement: %s" % d.get("what"), d)
